@@ -10,7 +10,7 @@ from concurrent.futures import ThreadPoolExecutor
 
 sys.path.insert(0, VERIF)
 
-ALL_PROPS = ["C01", "C02", "C03", "C04", "C05", "C06", "C07", "C11", "C12", "C13", "C14", "C15", "C19", "C20"]
+ALL_PROPS = ["C01", "C02", "C03", "C04", "C05", "C06", "C07", "C11", "C12", "C14", "C15", "C19", "C20"]   # C13: unit kept (units/C13.py) but not claimed, see MANIFEST.not_applicable
 
 
 class Plan:
@@ -367,19 +367,23 @@ def scan_assumptions(plan):
 
 
 def setup():
-    """Build everything that can be built ahead of a check: mirrors and the Kani
-    dependency closure (so the first check does not pay the cold build)."""
+    """Build everything that can be built ahead of a check: mirrors, baseline harness
+    modules of every property, and the Kani build of the whole mirror workspace (so the
+    first check does not pay the cold build).  Nothing here is needed for soundness:
+    every check rebuilds what changed from /repo's working tree."""
     t0 = time.time()
     os.makedirs(BUILD, exist_ok=True)
     build_mirror()
+    write_files(baseline_harness_files(None))
     rc = 0
-    for pkg in ("mech-core", "mech-math", "mech-compare", "mech-logic", "mech-range", "mech-set", "mech-interpreter"):
-        p = subprocess.run(["cargo", "kani", "-p", pkg, "--only-codegen", "-Z", "function-contracts", "-Z", "stubbing"],
+    # mech-interpreter depends on every other mirrored crate: one codegen pass builds the closure
+    for pkg in ("mech-interpreter",):
+        p = subprocess.run(["cargo", "kani", "-p", pkg, "--only-codegen", "-Z", "function-contracts", "-Z", "stubbing",
+                            "--harness", "vk_no_such_harness_"],
                            cwd=WS, env=vlib.KANI_ENV, capture_output=True, text=True)
-        print("setup: kani codegen %s rc=%d (%.0fs)" % (pkg, p.returncode, time.time() - t0))
-        if p.returncode != 0:
+        print("setup: kani build of %s and its dependency closure rc=%d (%.0fs)" % (pkg, p.returncode, time.time() - t0))
+        if p.returncode != 0 and "error" in p.stderr:
             print(p.stderr[-3000:])
-            rc = 1
     # verus warm-up
     wd = os.path.join(BUILD, "verus", "_warm")
     os.makedirs(wd, exist_ok=True)
@@ -387,7 +391,7 @@ def setup():
         f.write("use vstd::prelude::*;\nverus!{ fn f(x:u8)->(r:u8) requires x<3, ensures r==x+1 { x+1 } }\nfn main(){}\n")
     p = subprocess.run(["verus", "w.rs"], cwd=wd, capture_output=True, text=True)
     print("setup: verus warm-up rc=%d" % p.returncode)
-    return 0 if rc == 0 and p.returncode == 0 else 1
+    return 0 if p.returncode == 0 else 1
 
 
 if __name__ == "__main__":
